@@ -3,6 +3,8 @@ import RbV.Model.OccTable
 import RbV.Model.InvBWT
 import RbV.Thm.GenSrcBwt
 import RbV.Thm.GenSrcPrescan
+import RbV.Thm.GenSrcOcc
+import RbV.Thm.GenSrcLess
 /-!
 # C04 — BWT, less and Occ are exact (mirror models of `bwt.rs` refine the specification)
 
@@ -171,5 +173,180 @@ theorem less_source_prescan_exact (bwt : List Nat) (m c : Nat) (h : c < m) :
   ⟨_, GenSrcPrescan.prescan_eq_model _ 0, less_eq bwt m c h⟩
 
 example : Gen.SrcPrescan.prescan (· + ·) [1, 0, 2, 1] 0 = Rs.Res.ok [0, 1, 1, 3] := by decide
+
+/-! ### `Occ::new`, `Occ::get` translated from the source text (`RbV/Gen/SrcOcc.lean`, proofs `RbV/Thm/GenSrcOcc.lean`)
+
+The alphabet is an opaque value `alphabet : Alph`; what `Occ::new` asks of it are the three abstract functions
+`maxSymbol` (`alphabet.max_symbol()`), `symbols` (`alphabet.symbols.iter().collect::<Vec<usize>>()`), `isWordDollar`
+(`alphabet.is_word(b"$")`).  `bytecount::count` (external crate) is read as `List.count`. -/
+
+section occ_source
+variable {Alph : Type} (maxSymbol : Alph → Option Nat) (symbols : Alph → List Nat) (isWordDollar : Alph → Bool)
+
+/-- **`Occ::new`, as written, is the mirror model `occTable`** (real state: vector of counters, one column per symbol
+value below `max_symbol + 1`, the tracked columns pushed at rows `i % k == 0`), returned with `k`.  Hypotheses = what
+keeps the Rust code from panicking: non-empty alphabet, `k ≥ 1`, BWT and tracked symbols ≤ the maximal symbol, `n < 2^64`. -/
+theorem occ_new_source_eq_model (bwt : List Nat) (k : Nat) (alphabet : Alph) (ms : Nat)
+    (hms : maxSymbol alphabet = some ms) (hk : 0 < k) (hn : bwt.length < 2 ^ 64) (hms' : ms + 1 < 2 ^ 64)
+    (hsym : ∀ x ∈ bwt, x ≤ ms) (hal : ∀ a ∈ symbols alphabet, a ≤ ms) :
+    Gen.SrcOcc.new maxSymbol symbols isWordDollar bwt k alphabet
+      = Rs.Res.ok (occTable bwt k (GenSrcOcc.alphaOf (symbols alphabet) (isWordDollar alphabet) (ms + 1)) (ms + 1), k) :=
+  GenSrcOcc.new_eq_model maxSymbol symbols isWordDollar bwt k alphabet ms hms hk hn hms' hsym hal
+
+/-- generated code = specification: the column of every tracked symbol in the table returned by the translated
+`Occ::new` is the checkpoint table "entry i = occRef bwt (i·k) a for every i with i·k < n" -/
+theorem occ_new_source_exact (bwt : List Nat) (k : Nat) (alphabet : Alph) (ms : Nat)
+    (hms : maxSymbol alphabet = some ms) (hk : 0 < k) (hn : bwt.length < 2 ^ 64) (hms' : ms + 1 < 2 ^ 64)
+    (hsym : ∀ x ∈ bwt, x ≤ ms) (hal : ∀ a ∈ symbols alphabet, a ≤ ms)
+    (hnd : (symbols alphabet).Nodup) (hw : isWordDollar alphabet = false → 36 ∉ symbols alphabet)
+    (a : Nat) (ha : a ∈ GenSrcOcc.alphaOf (symbols alphabet) (isWordDollar alphabet) (ms + 1)) (ham : a ≤ ms) :
+    ∃ tbl, Gen.SrcOcc.new maxSymbol symbols isWordDollar bwt k alphabet = Rs.Res.ok (tbl, k) ∧
+      tbl[a]? = some ((List.range ((bwt.length + k - 1) / k)).map (fun i => occRef bwt (i * k) a)) := by
+  refine ⟨_, GenSrcOcc.new_eq_model maxSymbol symbols isWordDollar bwt k alphabet ms hms hk hn hms' hsym hal, ?_⟩
+  rw [occTable_col bwt k _ (ms + 1) a ha (GenSrcOcc.alphaOf_nodup _ _ _ hnd hw) (Nat.lt_succ_of_le ham),
+    occNewLoop_eq bwt k a hk]
+  rfl
+
+-- alphabet {0,1,2,3} without `$`: the table of the model example above; alphabet "$ACGT" of the repo's test, k = 3
+example : Gen.SrcOcc.new (fun _ => some 3) (fun _ => [0, 1, 2, 3]) (fun _ => false) [1, 3, 3, 1, 2, 0] 3 ()
+    = Rs.Res.ok ([[0, 0], [1, 2], [0, 0], [0, 2]], 3) := by decide
+
+/-- **`Occ::get`, as written, on a table whose column `a` is the checkpoint table, is the specification**: for every
+`k ≥ 1` (both sides of the look-ahead switch) and every row `r < n` the translated function — with `bytecount::count`
+read as `List.count` — passes every checked operation (`occ[a]`, the checkpoint reads, `r / k`, the two inclusive
+slices, `hi_occ - count`, `count + lo_occ`) and returns the number of `a` in `bwt[0..=r]`.  The proof walks all paths
+of the generated definition with the facts the true table provides and does not depend on the branch structure, so a
+property-preserving rewrite of `Occ::get` (other threshold, other rule for the checkpoint to count from) is re-proved. -/
+theorem occ_get_source_exact_on_table (occ : List (List Nat)) (k : Nat) (bwt : List Nat) (r a : Nat)
+    (hcp : occ[a]? = some (occNew bwt k a)) (hk : 0 < k) (hk32 : k < 2 ^ 32) (hr : r < bwt.length)
+    (hn : bwt.length < 2 ^ 64) :
+    Gen.SrcOcc.get (fun s c => s.count c) occ k bwt r a = Rs.Res.ok (occRef bwt r a) :=
+  GenSrcOcc.get_exact_of_table occ k bwt r a hcp hk hk32 hr hn
+
+/-- **`Occ::get`, as written, agrees with the mirror model `occGet`** (the function the driver runs and `occ_get_exact`
+is about) on the checkpoint column built by the loop of `Occ::new`.  (The stronger, shape-dependent statement "equal to
+`occGet` on *every* column on which the checked operations cannot panic" is `GenSrcOccModel.get_eq_model`,
+`RbV/Thm/GenSrcOccModel.lean`, built by `tools/gen_tables.py` as a soft obligation: it is false for a rewrite that
+changes which checkpoint is used although the property still holds.) -/
+theorem occ_get_source_eq_model (occ : List (List Nat)) (k : Nat) (bwt : List Nat) (r a : Nat)
+    (hcp : occ[a]? = some (occNewLoop bwt k a)) (hk : 0 < k) (hk32 : k < 2 ^ 32) (hr : r < bwt.length)
+    (hn : bwt.length < 2 ^ 64) :
+    Gen.SrcOcc.get (fun s c => s.count c) occ k bwt r a = Rs.Res.ok (occGet (occNewLoop bwt k a) bwt k r a) := by
+  rw [occ_get_exact bwt k r a hk hr]
+  rw [occNewLoop_eq bwt k a hk] at hcp
+  exact GenSrcOcc.get_exact_of_table occ k bwt r a hcp hk hk32 hr hn
+
+/-- **generated code = specification, end to end**: for every `k ≥ 1`, every row `r < n` and every tracked symbol, the
+*translated* `Occ::get` on the table returned by the *translated* `Occ::new` returns `occRef bwt r a` = the number of
+`a` in `bwt[0..=r]` (no panic, no hypothesis on the table left) -/
+theorem occ_get_source_exact (bwt : List Nat) (k : Nat) (alphabet : Alph) (ms : Nat)
+    (hms : maxSymbol alphabet = some ms) (hk : 0 < k) (hk32 : k < 2 ^ 32) (hn : bwt.length < 2 ^ 64) (hms' : ms + 1 < 2 ^ 64)
+    (hsym : ∀ x ∈ bwt, x ≤ ms) (hal : ∀ a ∈ symbols alphabet, a ≤ ms)
+    (hnd : (symbols alphabet).Nodup) (hw : isWordDollar alphabet = false → 36 ∉ symbols alphabet)
+    (a r : Nat) (ha : a ∈ GenSrcOcc.alphaOf (symbols alphabet) (isWordDollar alphabet) (ms + 1)) (hr : r < bwt.length) :
+    ∃ tbl k', Gen.SrcOcc.new maxSymbol symbols isWordDollar bwt k alphabet = Rs.Res.ok (tbl, k') ∧
+      Gen.SrcOcc.get (fun s c => s.count c) tbl k' bwt r a = Rs.Res.ok (occRef bwt r a) :=
+  GenSrcOcc.get_new_exact maxSymbol symbols isWordDollar bwt k alphabet ms hms hk hk32 hn hms' hsym hal hnd hw a r ha hr
+
+end occ_source
+
+-- `Occ::get` on the table of `Occ::new`, k = 3, symbol 3: the column 0,1,2,2,2,2 of the model example above
+example : (List.range 6).map (fun r => Gen.SrcOcc.get (fun s c => s.count c) [[0, 0], [1, 2], [0, 0], [0, 2]] 3
+    [1, 3, 3, 1, 2, 0] r 3) = [0, 1, 2, 2, 2, 2].map Rs.Res.ok := by decide
+-- sampling rate 65 (above the pinned look-ahead threshold), text of length 130, two checkpoints: backward count from the high
+-- checkpoint (row 64), early exit on equal checkpoints (absent symbol 3), forward counts (rows 70 and 10); the values are
+-- the specification's, so the example survives a retuned threshold
+example :
+    let bwt := List.replicate 63 1 ++ List.replicate 67 2
+    let tbl := occTable bwt 65 [1, 2, 3] 4
+    Gen.SrcOcc.get (fun s c => s.count c) tbl 65 bwt 64 2 = Rs.Res.ok 2 ∧
+    Gen.SrcOcc.get (fun s c => s.count c) tbl 65 bwt 64 3 = Rs.Res.ok 0 ∧
+    Gen.SrcOcc.get (fun s c => s.count c) tbl 65 bwt 70 2 = Rs.Res.ok 8 ∧
+    Gen.SrcOcc.get (fun s c => s.count c) tbl 65 bwt 10 1 = Rs.Res.ok 11 := by
+  decide +kernel
+-- a symbol without a column / a row outside the BWT is refused by the Rust code: the translation panics
+example : Gen.SrcOcc.get (fun s c => s.count c) [[0, 0], [1, 2], [0, 0], [0, 2]] 3 [1, 3, 3, 1, 2, 0] 2 4 = Rs.Res.panic := by
+  decide
+example : Gen.SrcOcc.get (fun s c => s.count c) [[0, 0], [1, 2], [0, 0], [0, 2]] 3 [1, 3, 3, 1, 2, 0] 6 3 = Rs.Res.panic := by
+  decide
+
+/-! ### `less()` translated from the source text (`RbV/Gen/SrcLess.lean`, proofs `RbV/Thm/GenSrcLess.lean`) -/
+
+/-- **`pub fn less`, as written, is the mirror model `lessModel`** with table size `max_symbol + 2`: the counting loop
+`less[c as usize] += 1` followed by the translated `utils::prescan` (the closure `|a, b| a + b` read as `+`).
+Hypotheses = what keeps the Rust code from panicking: non-empty alphabet (`max_symbol()` is `Some`), every BWT symbol
+below the table size, `n < 2^64`. -/
+theorem less_source_eq_model {Alph : Type} (maxSymbol : Alph → Option Nat) (bwt : List Nat) (alphabet : Alph) (ms : Nat)
+    (hms : maxSymbol alphabet = some ms) (hms' : ms + 2 < 2 ^ 64) (hn : bwt.length < 2 ^ 64)
+    (hsym : ∀ x ∈ bwt, x < ms + 2) :
+    Gen.SrcLess.less maxSymbol bwt alphabet = Rs.Res.ok (lessModel bwt (ms + 2)) :=
+  GenSrcLess.less_eq_model maxSymbol bwt alphabet ms hms hms' hn hsym
+
+/-- generated code = specification: entry `c` of the array returned by the translated `less()` is the number of BWT
+symbols strictly smaller than `c`, for every `c` up to `max_symbol + 1` -/
+theorem less_source_exact {Alph : Type} (maxSymbol : Alph → Option Nat) (bwt : List Nat) (alphabet : Alph) (ms c : Nat)
+    (hms : maxSymbol alphabet = some ms) (hms' : ms + 2 < 2 ^ 64) (hn : bwt.length < 2 ^ 64)
+    (hsym : ∀ x ∈ bwt, x < ms + 2) (hc : c < ms + 2) :
+    ∃ r, Gen.SrcLess.less maxSymbol bwt alphabet = Rs.Res.ok r ∧ r[c]? = some (bwt.countP (fun x => decide (x < c))) :=
+  ⟨_, GenSrcLess.less_eq_model maxSymbol bwt alphabet ms hms hms' hn hsym, less_eq bwt (ms + 2) c hc⟩
+
+example : Gen.SrcLess.less (fun _ => some 3) [1, 3, 3, 1, 2, 0] () = Rs.Res.ok [0, 1, 3, 4, 6] := by decide
+-- empty alphabet: `.expect("Expecting non-empty alphabet.")` panics; a symbol beyond the table: index out of bounds
+example : Gen.SrcLess.less (fun _ => none) [1, 3] () = Rs.Res.panic := by decide
+example : Gen.SrcLess.less (fun _ => some 1) [1, 3] () = Rs.Res.panic := by decide
+
+/-! ### `bwtfind`, `invert_bwt` translated from the source text (same generated file; `less(..)`, `bwtfind(..)` are calls
+of the translated functions, `Alphabet::new(bwt)` is the abstract `alphNew`) -/
+
+/-- **`pub fn bwtfind`, as written, is the mirror model `bwtfindModel`**: the slots `bwtfind[less[c]] = r; less[c] += 1`
+over the array returned by the translated `less()`; every write is in bounds because `less[c]` + the number of earlier
+`c`s is a row of the BWT -/
+theorem bwtfind_source_eq_model {Alph : Type} (maxSymbol : Alph → Option Nat) (bwt : List Nat) (alphabet : Alph) (ms : Nat)
+    (hms : maxSymbol alphabet = some ms) (hms' : ms + 2 < 2 ^ 64) (hn : bwt.length < 2 ^ 64)
+    (hsym : ∀ x ∈ bwt, x < ms + 2) :
+    Gen.SrcLess.bwtfind maxSymbol bwt alphabet = Rs.Res.ok (InvBWT.bwtfindModel bwt (ms + 2)) :=
+  GenSrcLess.bwtfind_eq_model maxSymbol bwt alphabet ms hms hms' hn hsym
+
+/-- **`pub fn invert_bwt`, as written, is the mirror model `invertModel`** for a non-empty BWT (on the empty one
+`bwtfind[0]` panics) whose symbols lie below `max_symbol + 2` of the alphabet `Alphabet::new(bwt)` -/
+theorem invert_bwt_source_eq_model {Alph : Type} (maxSymbol : Alph → Option Nat) (alphNew : List Nat → Alph)
+    (bwt : List Nat) (ms : Nat) (hms : maxSymbol (alphNew bwt) = some ms) (hms' : ms + 2 < 2 ^ 64)
+    (hpos : 0 < bwt.length) (hn : bwt.length < 2 ^ 64) (hsym : ∀ x ∈ bwt, x < ms + 2) :
+    Gen.SrcLess.invert_bwt maxSymbol alphNew bwt = Rs.Res.ok (InvBWT.invertModel bwt (ms + 2)) :=
+  GenSrcLess.invert_bwt_eq_model maxSymbol alphNew bwt ms hms hms' hpos hn hsym
+
+/-- **generated code = specification: `invert_bwt(bwt(t)) = t`** for the translated `invert_bwt` (which calls the
+translated `bwtfind`, `less`, `prescan`): every text whose last symbol is its unique smallest symbol is reproduced from
+the BWT of its sorted suffix permutation, provided `Alphabet::new` / `max_symbol` give a bound `ms` with every text
+symbol `≤ ms + 1` (for the real alphabet: the maximum) -/
+theorem invert_bwt_source_roundtrip {Alph : Type} (maxSymbol : Alph → Option Nat) (alphNew : List Nat → Alph)
+    (t sa : List Nat) (ms : Nat)
+    (hperm : sa.Perm (List.range t.length))
+    (hsorted : sa.Pairwise (fun i j => lexLt (t.drop i) (t.drop j)))
+    (hhead : sa.head? = some (t.length - 1))
+    (hpos : 0 < t.length) (hlen : t.length < 2 ^ 64)
+    (hmin : ∀ p, p < t.length → t.getD (t.length - 1) 0 ≤ t.getD p 0)
+    (huniq : ∀ p, p < t.length → t.getD p 0 = t.getD (t.length - 1) 0 → p = t.length - 1)
+    (hms : maxSymbol (alphNew (bwtRef t sa)) = some ms) (hms' : ms + 2 < 2 ^ 64)
+    (hm : ∀ x ∈ t, x < ms + 2) :
+    Gen.SrcLess.invert_bwt maxSymbol alphNew (bwtRef t sa) = Rs.Res.ok t := by
+  have hl : (bwtRef t sa).length = t.length := by
+    unfold bwtRef; rw [List.length_map]; simpa using hperm.length_eq
+  have hsym : ∀ x ∈ bwtRef t sa, x < ms + 2 := by
+    intro x hx
+    unfold bwtRef at hx
+    obtain ⟨p, _, rfl⟩ := List.mem_map.mp hx
+    have hlt : (p + t.length - 1) % t.length < t.length := Nat.mod_lt _ hpos
+    rw [List.getD_eq_getElem?_getD, List.getElem?_eq_getElem hlt]
+    exact hm _ (List.getElem_mem hlt)
+  rw [GenSrcLess.invert_bwt_eq_model maxSymbol alphNew (bwtRef t sa) ms hms hms' (by rw [hl]; exact hpos)
+    (by rw [hl]; exact hlen) hsym]
+  exact congrArg Rs.Res.ok (invert_bwt_roundtrip t sa (ms + 2) hperm hsorted hhead hpos hmin huniq hm)
+
+example : Gen.SrcLess.bwtfind (fun _ => some 99) [97, 99, 99, 97, 98, 36] () = Rs.Res.ok [5, 0, 3, 4, 1, 2] := by decide
+example : Gen.SrcLess.invert_bwt (fun _ => some 99) (fun _ => ()) [97, 99, 99, 97, 98, 36]
+    = Rs.Res.ok [99, 97, 98, 99, 97, 36] := by decide
+-- the empty BWT: `bwtfind[0]` is out of bounds, the Rust code panics
+example : Gen.SrcLess.invert_bwt (fun _ => some 99) (fun _ => ()) [] = Rs.Res.panic := by decide
 
 end RbV.Thm.C04
